@@ -121,7 +121,7 @@ pub use imp::*;
 pub const NOW_SECS: i64 = 1_767_268_800;
 #[cfg(kani)]
 pub fn stub_now() -> chrono::DateTime<chrono::Utc> {
-    chrono::DateTime::from_timestamp(NOW_SECS, 0).unwrap()
+    chrono::NaiveDate::from_ymd_opt(2026, 1, 1).unwrap().and_hms_opt(12, 0, 0).unwrap().and_utc()
 }
 /// "now" as the harness sees it (stubbed instant under Kani, the real clock in replay)
 pub fn now() -> chrono::DateTime<chrono::Utc> {
@@ -134,18 +134,21 @@ pub fn now() -> chrono::DateTime<chrono::Utc> {
         chrono::Utc::now()
     }
 }
-/// a stamp `age` whole seconds in the past
+/// a stamp `age` whole seconds in the past (|age| < 12 h). Under Kani it is assembled from a
+/// constant date and a symbolic time-of-day, so no calendar arithmetic reaches the solver.
 pub fn stamp(age: i64) -> chrono::DateTime<chrono::Utc> {
     #[cfg(kani)]
     {
-        chrono::DateTime::from_timestamp(NOW_SECS - age, 0).unwrap()
+        let secs = 43200 - age;
+        assume(secs >= 0 && secs < 86400);
+        let t = chrono::NaiveTime::from_num_seconds_from_midnight_opt(secs as u32, 0).unwrap();
+        chrono::NaiveDate::from_ymd_opt(2026, 1, 1).unwrap().and_time(t).and_utc()
     }
     #[cfg(not(kani))]
     {
         chrono::Utc::now() - chrono::Duration::seconds(age)
     }
 }
-
 
 /// assertion of the property (marker distinguishes it from a panic inside the real code)
 macro_rules! vassert {
